@@ -173,11 +173,27 @@ def check_props(prop, timeout=600):
                 checker_cmd=f"make -C coq && coqc -Q coq Xpl coq/Props/{prop}.v")
 
 
+_OWN_RUN_DIRS = []
+
+
+def _cleanup_run_dirs():
+    if os.environ.get("VERIF_KEEP_RUN"):
+        return
+    for d in _OWN_RUN_DIRS:
+        shutil.rmtree(d, ignore_errors=True)
+
+
 def _run_dir(name):
-    d = BUILD / "run" / name
+    """scratch directory for generated case files; one per process, so that two checks of the same property (quick and
+    thorough, /repo and a scratch worktree) can run at the same time; removed at exit unless VERIF_KEEP_RUN is set"""
+    d = BUILD / "run" / f"{name}_{os.getpid()}"
     if d.exists():
         shutil.rmtree(d)
     d.mkdir(parents=True)
+    if not _OWN_RUN_DIRS:
+        import atexit
+        atexit.register(_cleanup_run_dirs)
+    _OWN_RUN_DIRS.append(d)
     return d
 
 
@@ -273,10 +289,12 @@ def known_findings(prop):
 
 # ----------------------------------------------------------------------------- evidence / replay
 def write_evidence(prop, tier, coverage, wall, violations, assumptions):
-    EVIDENCE.mkdir(exist_ok=True)
+    # evidence/<id>.json always describes a run against /repo; a run against a scratch worktree (XPLIQUE_REPO) writes aside
+    out = EVIDENCE if str(REPO) == "/repo" else BUILD / "evidence-alt"
+    out.mkdir(parents=True, exist_ok=True)
     ev = dict(property_id=prop, tier=tier, seed=seed(), level="proof", coverage=coverage,
               assumptions=assumptions, wall_s=round(wall, 2), violations=violations)
-    (EVIDENCE / f"{prop}.json").write_text(json.dumps(ev, indent=1, default=str) + "\n")
+    (out / f"{prop}.json").write_text(json.dumps(ev, indent=1, default=str) + "\n")
 
 
 def write_replay(prop, tag, payload):
